@@ -5,6 +5,7 @@ import (
 	"reflect"
 
 	"github.com/goghcrow/yae/types"
+	"github.com/goghcrow/yae/util"
 )
 
 func MustTypeEnvOf(v interface{}) *types.Env {
@@ -15,7 +16,8 @@ func MustTypeEnvOf(v interface{}) *types.Env {
 	return env
 }
 
-func TypeEnvOf(v interface{}) (*types.Env, error) {
+func TypeEnvOf(v interface{}) (env *types.Env, err error) {
+	defer util.Recover(&err)
 	if v == nil {
 		return types.NewEnv(), nil
 	}
@@ -32,7 +34,7 @@ func TypeEnvOf(v interface{}) (*types.Env, error) {
 	if ty.Kind != types.KObj {
 		return nil, fmt.Errorf("expect struct type actual %s", reflect.TypeOf(v))
 	}
-	env := types.NewEnv()
+	env = types.NewEnv()
 	for _, f := range ty.Obj().Fields {
 		env.Put(f.Name, f.Val)
 	}
